@@ -231,6 +231,7 @@ func effectsPass(w *World, id string) []*OwnOb {
 	case "C05":
 		out = append(out, checkFormatTable(w)...)
 		out = append(out, checkOutputFileOpen(w, lib)...)
+		out = append(out, checkWrittenBytes(w)...)
 	case "C20":
 		out = append(out, checkWrapper(w)...)
 	case "C08":
@@ -1021,6 +1022,56 @@ func checkFormatTable(w *World) []*OwnOb {
 // checkOutputFileOpen: C05 — a file that bkl writes is replaced, never patched: every os.OpenFile in the library that
 // can write passes constant flags containing O_TRUNC and O_CREATE (os.Create is the same thing), and OutputToFile has
 // such a site and hands that handle, and nothing else, the encoded stream (one OutputToWriter call on it, no other write).
+// checkWrittenBytes: OutputToWriter hands its writer exactly what Output returned (the encoded stream, byte for byte):
+// the argument of the single Write call is a variable whose only assignment is the result of p.Output(...). The tools'
+// mains write exactly what MarshalStream returned, likewise.
+func checkWrittenBytes(w *World) []*OwnOb {
+	var out []*OwnOb
+	one := func(key, producer string) {
+		fi := findFunc(w, key)
+		if fi == nil {
+			return
+		}
+		info := fi.Pkg.TypesInfo
+		nW, ok := 0, true
+		ast.Inspect(fi.Decl.Body, func(nd ast.Node) bool {
+			c, isCall := nd.(*ast.CallExpr)
+			if !isCall {
+				return true
+			}
+			name := callName(w, c, info)
+			if !(strings.HasSuffix(name, ".Write") || strings.HasSuffix(name, ".WriteString")) || name == "bytes.Buffer.Write" || name == "bytes.Buffer.WriteString" {
+				return true
+			}
+			nW++
+			obj := types.Object(nil)
+			if len(c.Args) == 1 {
+				obj = identObj(c.Args[0], info)
+			}
+			rhs := assignmentsToObj(fi, obj)
+			if obj == nil || len(rhs) != 1 {
+				ok = false
+				return true
+			}
+			pc, isC := rhs[0].(*ast.CallExpr)
+			if !isC || !strings.HasSuffix(callName(w, pc, info), producer) {
+				// a call through a function-valued field (f.MarshalStream) has no callee: compare the selector
+				if !isC || !strings.HasSuffix(exprString(pc.Fun), "."+producer) {
+					ok = false
+				}
+			}
+			return true
+		})
+		out = append(out, &OwnOb{Key: fi.Key + ".effects[the bytes written are the encoded stream]", Kind: "effects", OK: ok && nW == 1, Pos: posStr(w, fi.Decl.Pos()),
+			Why: fi.Name + " must write exactly what " + producer + " returned, with one Write call: no trimming, padding or re-encoding of the stream on its way out"})
+	}
+	one(".:Parser.OutputToWriter", "Output")
+	for _, d := range []string{"cmd/bkld", "cmd/bkli", "cmd/bklr"} {
+		one(d+":main", "MarshalStream")
+	}
+	return out
+}
+
 func checkOutputFileOpen(w *World, lib []*FuncInfo, dirs ...string) []*OwnOb {
 	if len(dirs) == 0 {
 		dirs = []string{"."}
